@@ -5,6 +5,14 @@ COMMON_ASSUME = [
 ]
 NOT_APPLICABLE = {}
 PROPS = {
+    "C02": {
+        "claim": "TODO", "note": "TODO",
+        "props_file": "props/C02.v",
+        "shards": (4, 16),
+        "rule": "TODO",
+        "assumptions": COMMON_ASSUME,
+        "trusted_base": [],
+    },
     "C05": {
         "claim": "Coq theorems (closed, no axioms): the subtype relation is defined co-inductively as the greatest relation closed under ONE "
                  "executable rule function transcribed from spec/Candid.md; the decision procedure sub_dec (finite greatest fixed point over "
